@@ -65,7 +65,8 @@ def hex16 (n : UInt64) : String :=
   String.ofList (List.replicate (16 - ds.length) '0' ++ ds)
 
 mutual
-partial def twalk (T : Tables) : Tree → St × Obs → Except String (St × Obs)
+/-- `nth`: how many earlier siblings have the same rule (a visitor instance counts the rule nodes it meets at its own depth) -/
+partial def twalk (T : Tables) (nth : Nat) : Tree → St × Obs → Except String (St × Obs)
   | .node r kids, (st, o) =>
     -- probe: stack snapshot before EnterEveryRule touches it (bottom … top)
     let snap := toString r ++ ":" ++ String.join ((st.stack.zip o.cnts).reverse.map (fun p =>
@@ -73,7 +74,7 @@ partial def twalk (T : Tables) : Tree → St × Obs → Except String (St × Obs
     let o := { o with hash := fnvAdd o.hash snap, events := o.events + 1, max := Nat.max o.max st.stack.length }
     let topV := (st.stack.headD (0, 0)).1
     let o := if ownMethod T.enterM topV r then { o with flags := setFlag o.flags 0 } else o
-    let o := if T.unsupM.contains (topV, r) then { o with vunsup := o.vunsup ++ [r] } else o
+    let o := if T.unsupM.contains (topV, r) || (nth ≥ 1 && T.unsupAfter.contains (topV, r)) then { o with vunsup := o.vunsup ++ [r] } else o
     -- the Enter method's bookkeeping on the active instance's Parts / partIdx
     match applyAt o.cnts 0 (PT.ops topV r true) with
     | .error e => .error e
@@ -84,7 +85,7 @@ partial def twalk (T : Tables) : Tree → St × Obs → Except String (St × Obs
     | .ok st1 =>
       let pushed := st1.stack.length > st.stack.length
       let o := if pushed then { o with flags := false :: o.flags, cnts := { len := 0, idx := 0 } :: o.cnts } else o
-      match twalkL T kids (st1, o) with
+      match twalkL T [] kids (st1, o) with
       | .error e => .error e
       | .ok (st2, o) =>
         -- which frame receives ExitOC_r (as in ExitEveryRule)
@@ -112,12 +113,13 @@ partial def twalk (T : Tables) : Tree → St × Obs → Except String (St × Obs
           else .ok (st3, o)
   | .leaf _, (st, o) => (visitLeaf st).map (fun s => (s, o))
   | .err _, (st, o) => (visitLeaf st).map (fun s => (s, o))
-partial def twalkL (T : Tables) : List Tree → St × Obs → Except String (St × Obs)
+partial def twalkL (T : Tables) (seen : List Nat) : List Tree → St × Obs → Except String (St × Obs)
   | [], s => .ok s
   | t :: ts, s =>
-    match twalk T t s with
+    let r := t.rootRule
+    match twalk T (match r with | some x => seen.count x | none => 0) t s with
     | .error e => .error e
-    | .ok s1 => twalkL T ts s1
+    | .ok s1 => twalkL T (match r with | some x => x :: seen | none => seen) ts s1
 end
 
 def field (toks : List Sexp) (name : String) : Nat :=
@@ -160,7 +162,7 @@ def step (_ : Unit) (ts : List String) : Unit × String :=
         let rules := t.rules
         -- observer walk (same step functions) for the trace, with the probe as the only filter
         let TP : Tables := { T with filters := [0] }   -- the probe embeds BaseVisitor: inert
-        let tr := twalk TP t (TP.init, {})
+        let tr := twalk TP 0 t (TP.init, {})
         let vuns := match tr with | .ok (_, o) => o.vunsup.map ruleName | .error _ => []
         let mis := match tr with | .ok (_, o) => o.mis | .error _ => 0
         let nunsup := rules.flatMap (fun r => List.replicate (E.unsupErrCount r) (ruleName r)) ++ vuns
